@@ -242,11 +242,14 @@ def snapshot(objs):
         xs = []
         for s in slots(o):
             a = np.asarray(s)
-            xs.append([float(a[0]), float(a[1]), float(a[2])])
+            xs.append([float(a[0]), float(a[1]), float(a[2]) if a.shape[0] > 2 else 0.0])    # (n,2) arrays: plane z = 0
             lo = a.__array_interface__["data"][0]
             ranges.append((lo, lo + max(1, (a.shape[0] - 1) * abs(a.strides[0]) + a.itemsize)))
         at, ids = attr_state(o)
-        out.append({"xyz": xs, "attrs": at, "attr_ids": ids, "elems": elem_state(o)})
+        names = []
+        if not isinstance(o, np.ndarray):
+            names = [[cn, sorted(getattr(o, cn).attributes)] for cn in CONTS if getattr(o, cn, None) is not None]
+        out.append({"xyz": xs, "attrs": at, "attr_ids": ids, "elems": elem_state(o), "attr_names": names})
     # classes: identical start address = one buffer; partial overlaps are reported as an error
     order = sorted(range(len(ranges)), key=lambda i: ranges[i])
     for a, b in zip(order, order[1:]):
@@ -286,8 +289,50 @@ def combi(o, extra=None):
     return d
 
 
+FORM = ["pos"]     # per case: how optional arguments are passed: "pos" | "kw" | "omit" (defaults left out, rest by keyword)
+NUMREP = ["py"]    # per case: representation of numbers / flags / counts: "py" | "np64" | "np32" | "mixed"
+VECFORM = ["vec"]  # per case: translation vectors as Vec | list | tuple | ndarray
+ROTFORM = ["matrix"]
+
+
 def num(x):
-    return int(x) if INTS[0] and float(x) == int(x) else float(x)
+    v = int(x) if INTS[0] and float(x) == int(x) else float(x)
+    r = NUMREP[0]
+    if r == "py":
+        return v
+    if isinstance(v, int):
+        return np.int64(v) if r in ("np64", "mixed") else np.int32(v)
+    if r == "np32" and float(np.float32(v)) == v:
+        return np.float32(v)
+    return np.float64(v)
+
+
+def cnt(n):
+    """a count / index argument"""
+    r = NUMREP[0]
+    return int(n) if r == "py" else (np.int64(n) if r in ("np64", "mixed") else np.int32(n))
+
+
+def flag(b):
+    """a boolean switch: bool, numpy bool, or the ints 0 / 1"""
+    r = NUMREP[0]
+    return bool(b) if r == "py" else (np.bool_(b) if r == "np64" else int(bool(b)))
+
+
+def call(fn, required, optional):
+    """fn(*required, <optional>) in the call form of the case. optional: [(name, value, default)]"""
+    f = FORM[0]
+    if f == "pos":
+        return fn(*[v for _, v in required], *[v for _, v, _ in optional])
+    if f == "kw":
+        return fn(**dict(required), **{k: v for k, v, _ in optional})
+    kw = {}
+    for k, v, d in optional:            # "omit": whatever equals its documented default is left out
+        same = (v is None and d is None) or (d is not None and v is not None and not hasattr(v, "shape")
+                                             and type(d) in (bool, int, float) and v == d)
+        if not same:
+            kw[k] = v
+    return fn(*[v for _, v in required], **kw)
 
 
 def param(objs, p):
@@ -299,6 +344,30 @@ def param(objs, p):
     return V3(p)
 
 
+def tparam(objs, p):
+    """a translation vector in the vector form of the case (translate takes anything array-like)"""
+    v = param(objs, p)
+    if isinstance(p, list) and p and p[0] == "slot":
+        return v
+    f = VECFORM[0]
+    if f == "list":
+        return [c.item() for c in v]
+    if f == "tuple":
+        return tuple(c.item() for c in v)
+    if f == "ndarray":
+        return np.array(v)
+    return v
+
+
+def rotarg(R):
+    """the rotation in the form of the case: 3x3 ndarray, scipy Rotation object"""
+    from scipy.spatial.transform import Rotation
+    A = np.array(R, dtype=float)
+    if ROTFORM[0] == "object":
+        return Rotation.from_matrix(A)
+    return A
+
+
 def run_case(case, scratch):
     import mouette as M
     T = M.transform
@@ -306,23 +375,31 @@ def run_case(case, scratch):
     steps = []
     keep = []
     INTS[0] = bool(case.get("ints"))
+    FORM[0] = case.get("form", "pos")
+    NUMREP[0] = case.get("numrep", "py")
+    VECFORM[0] = case.get("vecform", "vec")
+    ROTFORM[0] = case.get("rotform", "matrix")
+    M.config.complete_edges_from_faces = not case.get("no_edge_completion", False)
     for n, op in enumerate(case["ops"]):
         name = op[0]
         new = None
         conn = None
         try:
             if name == "arr":
-                new = np.array(op[1], dtype=(float if op[2] == "f" else np.int64)).reshape((-1, 3))
+                ncol = len(op[1][0]) if op[1] else 3
+                new = np.array(op[1], dtype=(float if op[2] == "f" else np.int64)).reshape((-1, ncol))
                 info = combi(new)
             elif name == "from_arrays":
                 kw = {}
                 for key, v in zip("EFC", op[2:5]):
                     if v is not None:
                         kw[key] = np.array(v, dtype=np.int64)
-                new = M.mesh.from_arrays(objs[op[1]], **kw)
+                new = call(M.mesh.from_arrays, [("V", objs[op[1]])],
+                           [("E", kw.get("E"), None), ("F", kw.get("F"), None), ("C", kw.get("C"), None)])
                 info = combi(new)
             elif name == "ring":
-                new = M.procedural.ring(int(op[1]), float(op[4]) / 8.0, bool(op[3]), int(op[2]))
+                new = call(M.procedural.ring, [("N", cnt(op[1])), ("defect", float(op[4]) / 8.0)],
+                           [("open", flag(op[3]), False), ("n_cover", cnt(op[2]), 1)])
                 info = combi(new)
             elif name == "proc":
                 del PARAMS[:]
@@ -423,33 +500,71 @@ def run_case(case, scratch):
             elif name == "copy":
                 src = objs[op[1]]
                 srcinfo = [combi(src)]
-                new = M.mesh.copy(src, copy_attributes=bool(op[2]), copy_connectivity=bool(op[3]))
+                new = call(M.mesh.copy, [("mesh", src)],
+                           [("copy_attributes", flag(op[2]), False), ("copy_connectivity", flag(op[3]), False)])
                 info = combi(new)
                 info["src"] = srcinfo
                 info["shares_connectivity"] = bool(hasattr(src, "connectivity") and hasattr(new, "connectivity")
                                                    and new.connectivity is src.connectivity)
             elif name == "merge":
                 srcinfo = [combi(objs[i]) for i in op[1]]
-                new = M.mesh.merge([objs[i] for i in op[1]])
-                info = combi(new)
-                info["src"] = srcinfo
+                lst = [objs[i] for i in op[1]]
+                new = call(M.mesh.merge, [("mesh_list", tuple(lst) if FORM[0] == "kw" and lst else lst)], [])
+                if new is None:
+                    if op[1]:
+                        raise RuntimeError("merge of a non-empty list returned None")
+                    info = None
+                else:
+                    info = combi(new)
+                    info["src"] = srcinfo
             elif name == "translate":
-                r = T.translate(objs[op[1]], param(objs, op[2]))
+                r = call(T.translate, [("mesh", objs[op[1]]), ("tr", tparam(objs, op[2]))], [])
                 assert r is objs[op[1]]
             elif name == "rotate":
-                T.rotate(objs[op[1]], np.array(op[2], dtype=float), param(objs, op[3]))
+                call(T.rotate, [("mesh", objs[op[1]]), ("rot", rotarg(op[2]))], [("orig", param(objs, op[3]), None)])
+            elif name == "rotate_euler":
+                # quarter turns about the fixed axes x, y, z (scipy "xyz"): exact matrices; op[2] = [a, b, c] in quarter turns
+                ang = [float(q) * np.pi / 2 for q in op[2]]
+                call(T.rotate, [("mesh", objs[op[1]]), ("rot", tuple(ang) if op[4] else list(ang))],
+                     [("orig", param(objs, op[3]), None)])
+            elif name == "bad":
+                # a call that must fail (or do nothing): whatever happens, every live object is afterwards as it was
+                raised = None
+                try:
+                    o = objs[op[2]] if op[2] is not None else None
+                    if op[1] == "rotate_shape":
+                        T.rotate(o, np.eye(2))
+                    elif op[1] == "rotate_type":
+                        T.rotate(o, "xyz")
+                    elif op[1] == "translate_len":
+                        T.translate(o, M.Vec(1., 2.))
+                    elif op[1] == "from_arrays_index":
+                        n = o.shape[0]
+                        M.mesh.from_arrays(o, F=np.array([[0, 1, n]]))
+                    elif op[1] == "from_arrays_cols":
+                        M.mesh.from_arrays(np.zeros((3, 4)))
+                    elif op[1] == "ring_small":
+                        M.procedural.ring(2, 0.5)
+                    elif op[1] == "merge_generator":
+                        M.mesh.merge(x for x in [o, o])
+                    elif op[1] == "copy_none":
+                        M.mesh.copy(None)
+                except Exception as ex:  # noqa
+                    raised = type(ex).__name__
+                conn = {"raised": raised}
             elif name == "scale":
-                T.scale(objs[op[1]], num(op[2]), param(objs, op[3]))
+                call(T.scale, [("mesh", objs[op[1]]), ("factor", num(op[2]))], [("orig", param(objs, op[3]), None)])
             elif name == "scale_xyz":
-                T.scale_xyz(objs[op[1]], num(op[2]), num(op[3]), num(op[4]), param(objs, op[5]))
+                call(T.scale_xyz, [("mesh", objs[op[1]])],
+                     [("fx", num(op[2]), 1.), ("fy", num(op[3]), 1.), ("fz", num(op[4]), 1.), ("orig", param(objs, op[5]), None)])
             elif name == "normalize":
-                T.normalize(objs[op[1]], bool(op[2]))
+                call(T.normalize, [("mesh", objs[op[1]])], [("center_at_zero", flag(op[2]), True)])
             elif name == "fit":
                 T.fit_into_unit_cube(objs[op[1]])
             elif name == "to_origin":
                 T.translate_to_origin(objs[op[1]])
             elif name == "flatten":
-                T.flatten(objs[op[1]], int(op[2]))
+                call(T.flatten, [("mesh", objs[op[1]])], [("dim", cnt(op[2]), None)])
             elif name == "edit":
                 o = objs[op[1]]
                 if isinstance(o, np.ndarray):
@@ -463,6 +578,8 @@ def run_case(case, scratch):
                 raise ValueError("unknown op " + name)
             if new is not None:
                 objs.append(new)
+            else:
+                info = None
             back, shared = graph_state(objs)
             steps.append({"ok": True, "new": info if new is not None else None, "objs": snapshot(objs),
                           "backrefs": back, "shared": shared, "conn": conn})
